@@ -15,6 +15,7 @@ import (
 	"os"
 	"os/exec"
 	"path/filepath"
+	"runtime"
 	"sort"
 	"strings"
 	"sync"
@@ -114,6 +115,7 @@ type runner struct {
 	witness  string
 	fifo     string
 	newf     string // does not exist when a run starts (O_EXCL creators)
+	gc       bool   // run the garbage collector inside critical sections
 	mu       sync.Mutex
 	events   []Event
 	l1       []string
@@ -220,6 +222,10 @@ func (r *runner) critical(name string, exclusive bool, dom string) {
 	if exclusive {
 		os.WriteFile(w, []byte(name), 0o666)
 	}
+	if r.gc {
+		runtime.GC()
+		runtime.Gosched() // let the finalizer goroutine run
+	}
 	vsched.Yield("hold")
 	if exclusive {
 		b, _ := os.ReadFile(w)
@@ -307,7 +313,8 @@ func (r *runner) actor(name string, ops []Op) func() {
 			case "mutex":
 				mu := r.shared
 				if o.Mode == "own" {
-					mu = lockedfile.MutexAt(r.mpath)
+					// (a Mutex value made by hand, as the package documents: "the Path field must be set")
+					mu = &lockedfile.Mutex{Path: r.mpath}
 				}
 				unlock, err := mu.Lock()
 				if err != nil {
@@ -353,27 +360,63 @@ func newRunner(init []string) *runner {
 	os.Remove(r.newf)
 	os.Remove(r.witness + "-new")
 	os.Remove(r.fifo)
-	syscall.Mkfifo(r.fifo, 0o666)
+	seq0 := atomic.LoadInt64(&runnerSeq)
+	// the second lock domain is a FIFO, in every third run a character device (a private null device; needs privileges,
+	// else it stays a FIFO): whatever the lock file is, it is locked
+	if seq0%3 != 2 || syscall.Mknod(r.fifo, syscall.S_IFCHR|0o666, 1<<8|3) != nil {
+		syscall.Mkfifo(r.fifo, 0o666)
+	}
+	// ... and in every third run the mutex path goes through a symbolic link and back up: the file the operating system
+	// finds there is the lock, not what the path looks like when simplified as text
+	os.MkdirAll(filepath.Join(dir, "real", "sub"), 0o777)
+	os.Symlink(filepath.Join("real", "sub"), filepath.Join(dir, "link"))
+	os.Remove(filepath.Join(dir, "real", "lock"))
+	if seq0%3 == 1 {
+		r.mpath = filepath.Join(dir, "link") + "/../lock"
+	}
 	os.Remove(r.witness + "-fifo")
 	os.Remove(r.mpath)
 	os.Remove(r.witness + "-data")
 	os.Remove(r.witness + "-mutex")
-	if err := os.WriteFile(r.data, []byte(strings.Join(init, "")), 0o666); err != nil {
-		vutil.Fatalf("init: %v", err)
+	var werr error
+	for try := 0; try < 4; try++ {
+		// (a descriptor closed behind the driver's back - a stale finalizer of the code under test, say - makes one
+		// write fail with EBADF: the next one gets a descriptor of its own)
+		if werr = os.WriteFile(r.data, []byte(strings.Join(init, "")), 0o666); werr == nil {
+			break
+		}
+		harnessIOErrors++
+	}
+	if werr != nil {
+		// the driver's own file operations keep failing: this process is beyond use (descriptors are being closed behind its
+		// back).  The runs made so far are kept and written out; no further run is started in this mode.
+		harnessBroken = werr.Error()
 	}
 	r.shared = lockedfile.MutexAt(r.mpath)
 	// every third run the data file carries no write permission bits: whoever may open it for writing all the same (its
 	// creator's descriptor, the superuser) is a writer like any other, and readers have to wait for it
-	if atomic.AddInt64(&runnerSeq, 1)%3 == 0 {
+	seq := atomic.AddInt64(&runnerSeq, 1)
+	if seq%3 == 0 {
 		os.Chmod(r.data, 0o444)
 	} else {
 		os.Chmod(r.data, 0o666)
+	}
+	// every third run the data file is named relative to the current directory, and the garbage collector runs while
+	// locks are held: a lock lasts until Close, not until the File value happens to be collected
+	if seq%3 == 1 {
+		if err := os.Chdir(dir); err == nil {
+			r.data = "data"
+			r.gc = seq%12 == 1 && atomic.AddInt64(&gcRuns, 1) <= 40 // (a collection costs tens of milliseconds in this process)
+		}
 	}
 	return r
 }
 
 var runnerSeq int64
 var absentSeq int64
+var harnessIOErrors int64
+var harnessBroken string
+var gcRuns int64
 
 func runOne(family, mode string, cfg Config, strat vsched.Strategy, inj Inject) *RunRec {
 	// C07: in every fourth run (not under DFS, whose re-runs have to start alike) the file does not exist yet when the
@@ -389,7 +432,13 @@ func runOne(family, mode string, cfg Config, strat vsched.Strategy, inj Inject) 
 			cfg.Init = []string{}
 		}
 	}
+	if harnessBroken != "" {
+		return &RunRec{Family: family, Mode: mode, Prog: cfg.Prog, Init: cfg.Init, Inject: inj, Events: []Event{}, End: "stalled", Final: []string{}, L1: []string{}}
+	}
 	r := newRunner(cfg.Init)
+	if harnessBroken != "" {
+		return &RunRec{Family: family, Mode: mode, Prog: cfg.Prog, Init: cfg.Init, Inject: inj, Events: []Event{}, End: "stalled", Final: []string{}, L1: []string{}}
+	}
 	if family == "C07" && mode == "random" && len(cfg.Init) == 0 {
 		os.Remove(r.data)
 	}
@@ -736,6 +785,9 @@ func main() {
 	w.Close()
 	res.Count("runs", int64(col.runs))
 	res.Count("stalled_runs", int64(stalledRuns))
+	if harnessBroken != "" {
+		res.Extra["harness_broken"] = harnessBroken
+	}
 	if vsched.Stalled() {
 		res.Extra["controlled_execution"] = "given up: an actor blocked in a primitive the shims do not model (channel, unredirected lock)"
 	}
